@@ -52,7 +52,9 @@ class Roles(object):
         self.io_close = self._named(io, "close")
         dev = self.dev_cls
         self.dev = {}
-        for name in ("connect", "close", "_open", "_okay", "_clse", "_read_until", "_read_until_close", "_streaming_command",
+        # the acknowledgement helper is optional: without it _read_until builds the OKAY itself (checked by the ACK rules of C04)
+        self.dev["_okay"] = dev.methods.get("_okay")
+        for name in ("connect", "close", "_open", "_clse", "_read_until", "_read_until_close", "_streaming_command",
                      "_service", "_streaming_service", "_filesync_flush", "_filesync_read", "_filesync_read_buffered",
                      "_filesync_read_until", "_filesync_send", "_push", "_pull", "push", "pull", "list", "stat",
                      "shell", "exec_out", "root", "reboot", "streaming_shell", "_get_transport_timeout_s", "__init__"):
